@@ -171,7 +171,7 @@ def run_case(case, ctx):
     b_nz = (pat & 1) != 0
     av = rng.choice(VALS, size=n)
     bv = rng.choice(VALS, size=n)
-    if case["cseed"] % 3 == 0:
+    if gen.pick(case) % 3 == 0:
         bv = np.where(rng.random(n) < 0.6, av, bv)  # forced exact ties
     A = np.where(a_nz, av, 0.0).reshape(shape)
     B = np.where(b_nz, bv, 0.0).reshape(shape)
@@ -184,7 +184,7 @@ def run_case(case, ctx):
         orders = ["shuffled"]
     for ordk in orders:
         # object history: every other case reaches its sparse operands by growth (after operators have been evaluated on the smaller object)
-        hist = [None, "grown-subs", None, "grown-region"][case["cseed"] % 4] if not case.get("large") else None
+        hist = [None, "grown-subs", None, "grown-region"][gen.pick(case) % 4] if not case.get("large") else None
         SA = gen.mk_sptensor(ttb, A, gen.stored_order(rng, na, ordk), hist=hist)
         SB = gen.mk_sptensor(ttb, B, gen.stored_order(rng, nb, ordk if ordk == "sorted" else "shuffled"), hist=hist)
         ctx.feat(hist=str(hist))
@@ -202,8 +202,8 @@ def run_case(case, ctx):
         if ordk == orders[-1]:
             r = ctx.call("sptensor.logical_not", SA.logical_not)
             _judge(ctx, "sptensor.logical_not", r, "-", np.logical_not(A != 0), exact=False)
-            c = float(SCALARS[case["cseed"] % len(SCALARS)])
-            cs_ = [c, float(SCALARS[(case["cseed"] // 7) % len(SCALARS)])]
+            c = float(SCALARS[gen.pick(case) % len(SCALARS)])
+            cs_ = [c, float(SCALARS[(gen.pick(case) // 7) % len(SCALARS)])]
             for c in dict.fromkeys(cs_[:1] if case.get("large") else cs_):
                 ctx.feat(scalar=("0" if c == 0 else "neg" if c < 0 else "pos"))
                 for name, uf in ARITH:
@@ -220,7 +220,7 @@ def run_case(case, ctx):
             if not case.get("large"):
                 # the dense right-hand side held as a Kruskal tensor (mixed signs, zero factor entries; small integers so that the
                 # products are exact): S * K is S * K.full(), and a product that is zero is not stored
-                R_ = 1 + case["cseed"] % 3
+                R_ = 1 + gen.pick(case) % 3
                 Us = [rng.choice([-2.0, -1.0, 0.0, 1.0, 2.0], size=(I, R_)) for I in shape]
                 lam = rng.choice([1.0, -1.0, 2.0, 0.5], size=R_)
                 Kf = np.zeros(shape)
@@ -237,7 +237,7 @@ def run_case(case, ctx):
             _judge(ctx, "sptensor.elemfun", r, "-", A * -3.0, exact=True, fun="neg-scale")
             r = ctx.call("sptensor.elemfun", SA.elemfun, lambda v: v - 1.0)
             _judge(ctx, "sptensor.elemfun", r, "-", np.where(A != 0, A - 1.0, 0.0), exact=True, fun="shift")
-    if case["cseed"] % 4 == 1 and not case.get("large"):
+    if gen.pick(case) % 4 == 1 and not case.get("large"):
         _typed_block(case, ctx, rng, A, B, shape)
 
 
@@ -248,7 +248,7 @@ def _typed_block(case, ctx, rng, A, B, shape):
     Bi = np.where(B != 0, np.round(B * 2.0), 0.0)
     pairs = [("int64", "float64", Ai.astype(np.int64), B), ("float64", "int64", A, Bi.astype(np.int64)), ("int32", "float64", Ai.astype(np.int32), B),
              ("float32", "float64", A.astype(np.float32), B * 1.1), ("int64", "int64", Ai.astype(np.int64), Bi.astype(np.int64))]
-    ta, tb, Aa, Bb = pairs[case["cseed"] % len(pairs)]
+    ta, tb, Aa, Bb = pairs[gen.pick(case) % len(pairs)]
     if na and nb:
         SA = gen.mk_sptensor(ttb, Aa, gen.stored_order(rng, na, "shuffled"), dtype=Aa.dtype)
         SB = gen.mk_sptensor(ttb, Bb, gen.stored_order(rng, nb, "shuffled"), dtype=Bb.dtype)
@@ -265,13 +265,13 @@ def _typed_block(case, ctx, rng, A, B, shape):
         # a stored infinity / NaN: scalar multiples (times zero is NaN there, as in the dense result), negation, scalar comparisons
         An = A.copy()
         pos = np.argwhere(A != 0)
-        An[tuple(pos[int(rng.integers(0, len(pos)))])] = [np.inf, -np.inf, np.nan][case["cseed"] % 3]
+        An[tuple(pos[int(rng.integers(0, len(pos)))])] = [np.inf, -np.inf, np.nan][gen.pick(case) % 3]
         SN = gen.mk_sptensor(ttb, np.where(np.isnan(An), 1.0, An), gen.stored_order(rng, na, "shuffled"))
         if np.isnan(An).any():
             SN.vals[np.asarray(SN.vals).reshape(-1) == 1.0] = SN.vals[np.asarray(SN.vals).reshape(-1) == 1.0]     # (keeps genuine ones)
             k_ = [i for i, sub in enumerate(np.asarray(SN.subs).tolist()) if np.isnan(An[tuple(sub)])]
             SN.vals[k_] = np.nan
-        ctx.feat(nonfinite=["+inf", "-inf", "nan"][case["cseed"] % 3])
+        ctx.feat(nonfinite=["+inf", "-inf", "nan"][gen.pick(case) % 3])
         with np.errstate(all="ignore"):
             for c in (0.0, -0.0, 2.0, -1.0):
                 ctx.feat(scalar=("0" if c == 0 else "neg" if c < 0 else "pos"))
